@@ -121,10 +121,31 @@ def run(ctx, report):
             R3.violation(tname, 'suffix-table:%s' % tname, 'two suffix letters of %s denote the same size: %s' % (tname, d), where(arch, arch.assigns['att_mnemo_table'][-1]))
 
 
+    R4 = report.rule('C09.D4', 'irregular AT&T spellings agree with GNU as', floor=10)
+    import os
+    from ..core import VERIF
+    refnames = {}
+    with open(os.path.join(VERIF, 'ref', 'att_names.ref')) as f:
+        for line in f:
+            line = line.split('#')[0].split()
+            if len(line) == 2:
+                refnames[line[0]] = line[1]
+    for a, i in sorted(t['correspondance'].items()):
+        inst = 'correspondance[%s]' % a
+        if a not in refnames:
+            R4.ok(inst + ':unknown-to-ref', nontrivial=False)
+            R4.note('%s -> %s is not in ref/att_names.ref (not judged)' % (a, i))
+        elif refnames[a] == i:
+            R4.ok(inst, sample='%s = %s' % (a, i))
+        else:
+            R4.violation(inst, 'att-name:%s:%s' % (a, i), 'AT&T mnemonic %r is mapped to %r; GNU as defines it as %r' % (a, i, refnames[a]),
+                         where(arch, arch.assigns['att_mnemo_table'][-1]))
+
+
 MUTANTS = [
     ('no-lea', 'miasmx/arch/ia32_arch.py', "        'lea', 'mov', 'xchg', 'push', 'pop',", "        'mov', 'xchg', 'push', 'pop',", 'C09.D1'),
     ('ptr-w-u32', 'miasmx/arch/ia32_arch.py', "            'w': x86_afs.u16,\n            'l': x86_afs.u32, },\n        'lea',", "            'w': x86_afs.u32,\n            'l': x86_afs.u32, },\n        'lea',", 'C09.D'),
-    ('corr-swap', 'miasmx/arch/ia32_arch.py', "        'cwtl': 'cwde',\n        'cwtd': 'cwd',", "        'cwtl': 'cwd',\n        'cwtd': 'cwde',", 'C09.D2'),
+    ('corr-swap', 'miasmx/arch/ia32_arch.py', "        'cwtl': 'cwde',\n        'cwtd': 'cwd',", "        'cwtl': 'cwd',\n        'cwtd': 'cwde',", 'C09.D4'),
     ('none-minus-ret', 'miasmx/arch/ia32_arch.py', "        'leave', 'ret', 'nop',", "        'leave', 'nop',", 'C09.D1'),
     ('from-att-set-order', 'miasmx/arch/ia32_arch.py', "    elif name.startswith('set'):\n        if name.endswith('b') and not name in [ 'setb', 'setnb' ]:", "    elif name.startswith('set'):\n        if name.endswith('b') and not name in [ 'setnb' ]:", 'C09.D2'),
     ('movzx-bw', 'miasmx/arch/ia32_arch.py', "        elif sz == (u16, u08):\n            return name[:4]+'bw'", "        elif sz == (u16, u08):\n            return name[:4]+'wb'", 'C09.D2'),
